@@ -117,6 +117,7 @@ func loweredBytes(v ssa.Value) bool {
 func c10(c *Ctx) {
 	defer c.recursionDepthPaired("R10.6")
 	defer c.fixedDigitsUnconstrained("R10.7")
+	defer c.keywordFlagsAreOpaque("R10.8")
 	P, R := c.P, c.R
 	R.Explain("R10.1", "case folding (flow): in imap/command every string comparison (==, !=, switch case) against a constant that contains a letter has a lower-case constant and a dynamic side all of whose producers are lower-casing operations (strings.ToLower, rfcparser.String.ToLower, bytes collected through ByteToLower), or uses strings.EqualFold; every command-registry lookup key is lowered; the case-sensitive Parser.ConsumeBytes is never called with a letter; byte comparisons against a letter constant compare a ByteToLower result.")
 	R.Explain("R10.3", "T-EXHAUST: every type implementing command.Builder is registered in Parser.commands or UIDCommandParser.commands (or dispatched explicitly), registry keys are lower-case, and every command.Payload type has a case in the session dispatch (handleCommand / handleWithMailbox / handleUID / serve / command reader).")
@@ -553,4 +554,143 @@ func (c *Ctx) fixedDigitsUnconstrained(rule string) {
 	}
 	R.Stats["R10.7 nDIGIT field reads"] = uses
 	R.Min(rule, "functions that read nDIGIT fields", judged, 5)
+}
+
+// keywordFlagsAreOpaque (R10.8): flag-keyword = atom - the parser has no opinion on the text of a keyword flag.
+func (c *Ctx) keywordFlagsAreOpaque(rule string) {
+	P, R := c.P, c.R
+	R.Explain(rule, "flag-keyword = atom: in the flag parsers of imap/command (the functions that test for a `\\` token) an error return that depends on the text of the parsed atom (a comparison of ParseAtom's result, e.g. the refusal of \\Recent) is taken only on the edge on which the backslash was matched; on the other edge the atom is a keyword flag and is accepted whatever it spells (a keyword named `recent`, `seen`, ... is legal).")
+	n := 0
+	for _, f := range c.funcsInPkg("imap/command") {
+		// the backslash test
+		var bsIfs []*ssa.BasicBlock
+		for _, b := range f.Blocks {
+			iff := engine.IfOf(b)
+			if iff == nil {
+				continue
+			}
+			ex, ok := iff.Cond.(*ssa.Extract)
+			if !ok || ex.Index != 0 {
+				continue
+			}
+			call, ok := ex.Tuple.(*ssa.Call)
+			if !ok || call.Call.StaticCallee() == nil || engine.BaseName(call.Call.StaticCallee()) != "Matches" || len(call.Call.Args) < 2 {
+				continue
+			}
+			if k, ok := call.Call.Args[1].(*ssa.Const); ok && k.Value != nil {
+				if tn := tokenTypeName(c, k); tn == "TokenTypeBackslash" {
+					bsIfs = append(bsIfs, b)
+				}
+			}
+		}
+		if len(bsIfs) == 0 {
+			continue
+		}
+		// values derived from ParseAtom's text
+		var dep func(v ssa.Value, seen map[ssa.Value]bool) bool
+		dep = func(v ssa.Value, seen map[ssa.Value]bool) bool {
+			if v == nil || seen[v] {
+				return false
+			}
+			seen[v] = true
+			switch t := v.(type) {
+			case *ssa.Extract:
+				if call, ok := t.Tuple.(*ssa.Call); ok && t.Index == 0 {
+					if sc := call.Call.StaticCallee(); sc != nil && engine.BaseName(sc) == "ParseAtom" {
+						return true
+					}
+				}
+				return dep(t.Tuple, seen)
+			case *ssa.Call:
+				for _, a := range t.Call.Args {
+					if dep(a, seen) {
+						return true
+					}
+				}
+			case *ssa.BinOp:
+				return dep(t.X, seen) || dep(t.Y, seen)
+			case *ssa.UnOp:
+				return dep(t.X, seen)
+			case *ssa.Phi:
+				for _, e := range t.Edges {
+					if dep(e, seen) {
+						return true
+					}
+				}
+			case *ssa.Convert:
+				return dep(t.X, seen)
+			case *ssa.ChangeType:
+				return dep(t.X, seen)
+			}
+			return false
+		}
+		n++
+		bad := ""
+		for _, b := range f.Blocks {
+			iff := engine.IfOf(b)
+			if iff == nil || !dep(iff.Cond, map[ssa.Value]bool{}) {
+				continue
+			}
+			// is an error return control-dependent on this branch?
+			rejects := false
+			for _, ret := range engine.Returns(f) {
+				lr := engine.LastResult(ret)
+				if lr == nil || engine.IsNilConst(lr) || lr.Type().String() != "error" {
+					continue
+				}
+				inev := func(s *ssa.BasicBlock) bool {
+					seen := map[*ssa.BasicBlock]bool{}
+					ok := true
+					var walk func(x *ssa.BasicBlock)
+					walk = func(x *ssa.BasicBlock) {
+						if seen[x] || !ok || x == ret.Block() {
+							return
+						}
+						seen[x] = true
+						if len(x.Succs) == 0 {
+							ok = false
+							return
+						}
+						for _, y := range x.Succs {
+							walk(y)
+						}
+					}
+					walk(s)
+					return ok
+				}
+				if len(b.Succs) == 2 && inev(b.Succs[0]) != inev(b.Succs[1]) {
+					rejects = true
+				}
+			}
+			if !rejects {
+				continue
+			}
+			onBackslash := false
+			for _, bs := range bsIfs {
+				if engine.EdgeDominates(bs, 0, b) {
+					onBackslash = true
+				}
+			}
+			if !onBackslash {
+				bad = P.Pos(iff.Cond.Pos())
+			}
+		}
+		R.Check(bad == "", rule, c.name(f)+"|no rejection of keyword flags by name", P.Pos(f.Pos()), "text-dependent rejections only after a matched backslash", "a rejection that depends on the atom's text ("+bad+") is not confined to the backslash edge: a keyword flag with that spelling makes the whole command fail")
+	}
+	R.Min(rule, "flag parsers (functions testing for a backslash token)", n, 1)
+}
+
+// tokenTypeName resolves a rfcparser.TokenType constant value to its declared name.
+func tokenTypeName(c *Ctx, k *ssa.Const) string {
+	nt, ok := k.Type().(*types.Named)
+	if !ok || nt.Obj().Name() != "TokenType" || nt.Obj().Pkg() == nil {
+		return ""
+	}
+	sc := nt.Obj().Pkg().Scope()
+	for _, name := range sc.Names() {
+		if cst, ok := sc.Lookup(name).(*types.Const); ok && types.Identical(cst.Type(), nt) && constant.Compare(cst.Val(), token.EQL, k.Value) {
+			return name
+		}
+	}
+	return ""
 }
